@@ -393,6 +393,7 @@ func genBuilders(id, pkgName string, maxAll, maxOne int) genFn {
 }
 
 func init() {
+	generators["C01"] = append(generators["C01"], genBuilders("c01", "c01b", 3, 3))
 	generators["C02"] = append(generators["C02"], genBuilders("c02", "c02b", 3, 3))
 	generators["C14"] = append(generators["C14"], genBuilders("c14", "c14b", 2, 6))
 }
